@@ -206,6 +206,8 @@ def reflect_simple(obj, owner, pattern, value_interp=None):
             items.append("]")
         else:
             items.append(Field(owner, fname, codec, kind, chars, minlen))
+        flds = [it for it in items if isinstance(it, Field)]
+        flds[-1].ftype = types.get(fname)
     return items
 
 
@@ -789,6 +791,22 @@ def g_field(rng, kind, fld, state):
         return ["time", n_, rng.choice([1, 2, 4, 8, 16, 32, 64, 128]), others]
     if c == "CVersion":
         return ["version"] + list(state["ver"])
+    if c == "CUnknown":
+        # the formatter behaves like no codec of the model (already reported): still produce values by the
+        # field's declared type so that the direct oracle can name a concrete line that does not survive
+        t = getattr(fld, "ftype", None)
+        ts = t if isinstance(t, tuple) else (t,)
+        L0, L1, U, B, IM = mods()
+        if float in ts:
+            return ["float", float(rng.randint(0, 4000000) / 10000.0).hex(), True]
+        if U.FractionalSymbolicDuration in ts:
+            return g_frac(rng)
+        if int in ts:
+            return ["int", rng.randint(0, 1000)]
+        if str in ts:
+            return ["str", g_ident(rng)]
+        if list in ts:
+            return ["list", [rng.choice(ATTRS) for _ in range(rng.choice([0, 1, 2, 3]))]]
     raise ValueError("no generator for codec %s (field %s of %s)" % (c, n, kind))
 
 
@@ -920,6 +938,9 @@ def run_line(ctx, spec, terms, kept):
             return obj
         parsed = p
     obj._c07_case = (None, parsed, text)
+    if any(f.codec == "CUnknown" for f in fields):
+        ctx.count("model:skipped_unknown_codec")
+        return obj
     # model case
     risky = False
     for f in fields:
@@ -959,6 +980,33 @@ V1_KIND = {"snote_note": "MatchSnoteNote", "deletion": "MatchSnoteDeletion", "tr
            "soft": "MatchSoftPedal", "meta": "MatchScoreProp"}
 SNOTE_CONTENT = ["Anchor", "NoteName", "Modifier", "Octave", "Measure", "Beat", "Offset", "Duration", "OnsetInBeats",
                  "OffsetInBeats", "ScoreAttributesList"]
+
+
+TO_V1_MODEL = {"snote_note": ("KSnoteNote", "snote_note"), "deletion": ("KSnoteOnly", "deletion"), "trailing_score": ("KSnoteOnly", "deletion"),
+               "no_played": ("KSnoteOnly", "deletion"), "insertion": ("KNoteOnly", "insertion"), "hammer_bounce": ("KNoteOnly", "insertion"),
+               "trailing_played": ("KNoteOnly", "insertion"), "trill": ("KTrill", "ornament"), "sustain": ("KPedal", "sustain"), "soft": ("KPedal", "soft")}
+
+
+def c_plain(v):
+    """Coq `value` of a field value by its Python type (independent of how a version writes it)."""
+    L0, L1, U, B, IM = mods()
+    if v is None:
+        return "VNone"
+    if isinstance(v, bool):
+        raise Mismatch("a bool: %r" % (v,))
+    if isinstance(v, int) or (hasattr(v, "dtype") and int(v) == v and "int" in str(v.dtype)):
+        return "(VInt %s)" % cz(int(v))
+    if isinstance(v, float):
+        if v != v or v in (float("inf"), float("-inf")):
+            raise Mismatch("non-finite float")
+        return "(VQ %s %s)" % (cbool(math.copysign(1.0, v) < 0), cq(abs(Fraction(v))))
+    if isinstance(v, str):
+        return "(VStr %s)" % cstr(v)
+    if isinstance(v, list) and all(isinstance(x, str) for x in v):
+        return "(VList %s)" % clist([cstr(x) for x in v])
+    if isinstance(v, U.FractionalSymbolicDuration):
+        return "(VFrac %s)" % c_frac(v)
+    raise Mismatch("no plain value for %r" % (v,))
 
 
 def run_to_v1(ctx, spec, obj, pitch_terms, pitch_kept):
@@ -1039,6 +1087,16 @@ def run_to_v1(ctx, spec, obj, pitch_terms, pitch_kept):
                 same("Value", [str(x) for x in obj.Value], [str(x) for x in q.Value])
             else:
                 same("Value", obj.Value, q.Value)
+    # model of the conversion on the flat field values (note pairs, deletions, insertions, trills, pedals)
+    if base in TO_V1_MODEL:
+        kcode, k1 = TO_V1_MODEL[base]
+        f0, f1 = schemas()[(kind, tuple(spec["ver"]))][2], schemas()[(k1, V1)][2]
+        try:
+            vs0 = [c_plain(getattr(sub_of(obj, f.owner), f.name)) for f in f0]
+            vs1 = [c_plain(getattr(sub_of(q, f.owner), f.name)) for f in f1]
+            pitch_terms.append(("v1", "(%s, %s, %s)" % (kcode, clist(vs0), clist(vs1)), rep))
+        except Mismatch as e:
+            bad.append("converted line holds a value of unexpected shape: %s" % e)
     # the converted line is a writable, re-readable 1.0.0 line
     try:
         t = q.matchline
@@ -1559,8 +1617,6 @@ def exec_frac_prog(steps, trace=None):
         for i in operands:  # an operation may not change its operands
             bad = bad or look(i, when + ": operand afterwards")
         if new is not None:
-            if any(new is o for o in objs.values()):
-                return "%s returns one of the existing objects instead of a new duration" % when
             i = s[1]
             objs[i], ref[i] = new, r
             order.append(i)
@@ -1585,11 +1641,24 @@ def c_state(st):
     return "(mkfrac %s %s %s %s)" % (cz(n), cz(d), copt(td, cz), copt(cs, lambda l: clist([c_triple(c) for c in l])))
 
 
+CORPUS_PROGS = [
+    # a tied duration used in two sums, compared and summed with itself (the scenario of seeded/C07/b_*)
+    [["parse", "o0", "1/4+1/16"], ["new", "o1", 1, 32, None], ["add", "o2", "o0", "o1"], ["new", "o3", 1, 8, 3], ["add", "o4", "o0", "o3"],
+     ["use", "eq", "o2", "o4"], ["sum", "o5", ["o0", "o0"]], ["raddint", "o6", 0, "o0"], ["addint", "o7", "o0", 2], ["add", "o8", "o0", "o0"],
+     ["use", "float", "o0", "o8"], ["add", "o9", "o1", "o0"]],
+    # zero durations: C07-K1
+    [["new", "o0", 0, 4, None], ["new", "o1", 0, 8, None], ["add", "o2", "o0", "o1"]],
+    [["parse", "o0", "3/8"], ["parse", "o1", "0/4"], ["add", "o2", "o0", "o1"], ["add", "o3", "o1", "o0"], ["sum", "o4", ["o1", "o0", "o1"]]],
+    # around the bound
+    [["new", "o0", 1023, 1024, None], ["new", "o1", 1, 1024, None], ["add", "o2", "o0", "o1"], ["add", "o3", "o2", "o1"], ["add", "o4", "o0", "o0"]],
+]
+
+
 def run_frac_programs(ctx, n):
     rng = ctx.rng
     terms, kept = [], []
-    for _ in range(n):
-        steps = g_frac_prog(rng)
+    for k in range(n + len(CORPUS_PROGS)):
+        steps = CORPUS_PROGS[k] if k < len(CORPUS_PROGS) else g_frac_prog(rng)
         trace = []
         bad = exec_frac_prog(steps, trace)
         ctx.evaluations += len(steps)
@@ -1606,8 +1675,12 @@ def run_frac_programs(ctx, n):
         if trace and trace[-1] == "skip":
             ctx.count("frac_prog:model_skipped(bound near-tie or bound inside sum)")
             continue
-        if any(t == "" for _, texts, _ in trace for t in texts):
+        if any(t == "" for e in trace if e != "skip" for t in e[1]):
             ctx.count("frac_prog:with_empty_text(all components vanished)")
+            if ctx.counts["frac_prog:with_empty_text(all components vanished)"] == 1:
+                k = next(i for i, e in enumerate(trace) if e != "skip" and "" in e[1])
+                ctx.violation("a sum of durations whose components all have numerator 0 prints as the empty text, which is not read back "
+                              "(value 0 does not survive the string round trip)", {"kind": "frac_prog", "what": "empty_text", "steps": steps[:k + 1]})
         terms.append(clist(["(%s, (%s, %s))" % (c, clist([cstr(t) for t in texts]), copt(st, c_state)) for c, texts, st in trace]))
         kept.append({"kind": "frac_prog", "steps": steps})
     for k in kept[:1]:
@@ -1676,13 +1749,14 @@ def run(ctx):
                        "other floats (decimal boundaries, binary ties) are checked for the rounded value and the fixpoint only",
                        "bound_integers is modelled with exact rationals; cases within 1e-6 of a rounding/argmin tie are counted and not compared with the model",
                        "negative durations are outside the format (digits only)"]
+    ctx.matchers["C07-K1"] = lambda r: isinstance(r, dict) and r.get("kind") == "frac_prog" and r.get("what") == "empty_text"
     S, rows = gen()
     for (kind, ver), (nm, elems, fields) in sorted(S.items()):
         unk = [f.name for f in fields if f.codec == "CUnknown"]
         if unk:
             ctx.violation("formatter of field(s) %s of %s %s behaves like no codec of the model" % (unk, kind, ver),
                           {"kind": kind, "ver": list(ver), "what": "reflect", "fields": unk}, no_input=True)
-    ok, why = ctx.coq_props(expect_min=16)
+    ok, why = ctx.coq_props(expect_min=40)
     key_oracle(ctx, rows)
     rng = ctx.rng
     per = 12 if ctx.tier == "quick" else 260
@@ -1690,7 +1764,11 @@ def run(ctx):
     cat = sorted(S.keys())
     for kind, ver in cat:
         for _ in range(per):
-            specs.append(g_line(rng, kind, ver))
+            try:
+                specs.append(g_line(rng, kind, ver))
+            except ValueError as e:
+                ctx.count("generator:no_values_for_schema %s %s" % (kind, ver))
+                break
     terms, kept, pterms, pkept = [], [], [], []
     nviol0 = len(ctx.violations)
     for spec in specs:
@@ -1719,6 +1797,13 @@ def run(ctx):
                    "= implementation on %d generated lines of %d schemas" % (len(terms), len(S)), not failing, failing[:5])
     for i in failing[:5]:
         ctx.violation("model and implementation disagree on line %r" % kept[i]["text"], dict(kept[i], what="model"))
+    v1terms = [t for t in pterms if isinstance(t, tuple)]
+    pterms = [t for t in pterms if not isinstance(t, tuple)]
+    failing = [] if not v1terms else ctx.coq_failing("tov1", "From PV Require Import Model.C07.", "", [t[1] for t in v1terms], "check_to_v1")
+    ctx.obligation("correspondence: to_v1 field values = model line_to_v1 on %d converted lines (note pairs, deletions, insertions and variants, "
+                   "trills, sustain and soft pedal of 0.1.0-0.5.0)" % len(v1terms), not failing, failing[:5])
+    for i in failing[:5]:
+        ctx.violation("to_v1 differs from the model line_to_v1 (a field of the converted line is not the carried-over / converted value)", v1terms[i][2])
     failing = [] if not pterms else ctx.coq_failing("pitch", "From PV Require Import Model.C07.", "", pterms,
                               "fun c => match c with (s, a, o, m) => match midi_pitch s a o with Some x => Z.eqb x m | None => false end end")
     ctx.obligation("correspondence: to_v1 MIDI pitch = model midi_pitch on %d converted notes" % len(pterms), not failing, failing[:5])
